@@ -25,7 +25,7 @@ RULE = ('every (kind, payload, entrypoint) of the alphabet is one value; per val
         'a non-generic signature prefix / 96 bytes')
 BOUND = {
     'quick': 'payload = first byte {00,01,02,03,04,ff} x last byte {00,01,ff} x fillers {00,a5}; entrypoints {none, a, default, '
-             '31 chars, a.b_1, a%b, default_admin, defaults, set_default, x.default.y, de, Default}; 7 address kinds, 4 key-hash kinds, 4 key kinds, 5 signature prefixes, chain ids',
+             '31 chars, a.b_1, a%b, default_admin, defaults, set_default, x.default.y, de, Default, a%default}; 7 address kinds, 4 key-hash kinds, 4 key kinds, 5 signature prefixes, chain ids',
     'thorough': 'first byte all 256 x second byte {00,01,02,03,04,ff} x last byte {00,01,ff} x fillers {00,a5}; same kinds; '
                 'entrypoints as quick plus {root, do, Z}',
 }
@@ -43,7 +43,7 @@ LEVEL_TEXT = ('exhaustive over a class-covering alphabet (every value of the byt
 ADDR_KINDS = ['tz1', 'tz2', 'tz3', 'tz4', 'KT1', 'sr1', 'txr1']
 EP31 = 'abcdefghijklmnopqrstuvwxyz01234'
 # near-misses of the one name with a special encoding: longer names that begin / end with it or contain it, and a piece of it
-NEAR_DEFAULT = ['default_admin', 'defaults', 'set_default', 'x.default.y', 'de', 'Default']
+NEAR_DEFAULT = ['default_admin', 'defaults', 'set_default', 'x.default.y', 'de', 'Default', 'a%default']
 EPS = {'quick': ['', 'a', 'default', EP31, 'a.b_1', 'a%b'] + NEAR_DEFAULT,
        'thorough': ['', 'a', 'default', EP31, 'a.b_1', 'a%b', 'root', 'do', 'Z'] + NEAR_DEFAULT + ['fault', 'default%default', 'defaul']}
 KEY_LEN = {'edpk': 32, 'sppk': 33, 'p2pk': 33, 'BLpk': 48}
